@@ -202,6 +202,10 @@ def explore(cfgs, limit):
                 low = err.lower()
                 if started is not None and "deadlock" in low:
                     viols.append((started, {"kind": "deadlock", "observed": err.strip().splitlines()[-1][:300] if err.strip() else ""}))
+                elif started is not None and (rc < 0 and rc != -9 or rc in (132, 134, 135, 136, 139)):
+                    # the subject died of a signal (wild read behind `unsafe`, abort); confirmed below by
+                    # re-running this configuration on its own like every other violation
+                    viols.append((started, {"kind": "crash", "observed": f"the process running this configuration died with status {rc}"}))
                 elif started is not None and ("exceeded maximum number of branches" in low or "max_branches" in low):
                     mach.append(f"configuration {started} hit loom's branch cap")
                 else:
@@ -324,11 +328,12 @@ def main():
     }
     json.dump(evidence, open(os.path.join(ROOT, "evidence", "C16.json"), "w"), indent=1)
     print(f"C16 {tier}: configurations={len(results)}/{len(cfgs)} schedules={schedules} completion_orders={orders} calls={calls} violations={unknown} known={known} wall={wall:.1f}s")
-    if mach:
-        for m in mach:
-            print("MACHINERY:", m, file=sys.stderr)
-        return 2
-    return 1 if unknown else 0
+    for m in mach:
+        print("MACHINERY:", m, file=sys.stderr)
+    # a confirmed violation is the verdict even if some other configuration could not be completed
+    if unknown:
+        return 1
+    return 2 if mach else 0
 
 
 if __name__ == "__main__":
